@@ -148,21 +148,36 @@ def snap_regions(ds, idxs):
             r.alpha = float(snap(r.alpha))
 
 
-ALGOS = ["PaVeBa", "PaVeBaGP-IH", "PaVeBaGP-DE", "PaVeBaPartialGP-rect", "PaVeBaPartialGP-ell", "VOGP", "EpsilonPAL", "Auer"]
-FAMILY = {"PaVeBa": "pv", "PaVeBaGP-IH": "pv", "PaVeBaGP-DE": "pv", "PaVeBaPartialGP-rect": "pv", "PaVeBaPartialGP-ell": "pv",
+class Scripted:
+    """problem whose observations are scripted: truth + obs_noise(round, design); everything dyadic"""
+
+    def __init__(self, X, Y, noise_fn, algo_ref):
+        self.X = np.array(X, dtype=float); self.Y = np.array(Y, dtype=float)
+        self.noise_fn = noise_fn; self.algo_ref = algo_ref
+        self.noise_var = 0.01
+
+    def evaluate(self, x, noisy=True):
+        x = np.atleast_2d(np.asarray(x, dtype=float))[:, :self.X.shape[1]]
+        idx = [int(np.argmin(((self.X - r) ** 2).sum(1))) for r in x]
+        r = self.algo_ref[0].round if self.algo_ref[0] is not None else 0
+        return np.array([self.Y[i] + np.array(self.noise_fn(r, i), dtype=float) for i in idx])
+
+
+ALGOS = ["PaVeBa", "PaVeBa-real", "Auer-real", "PaVeBaGP-IH", "PaVeBaGP-DE", "PaVeBaPartialGP-rect", "PaVeBaPartialGP-ell", "VOGP", "EpsilonPAL", "Auer"]
+FAMILY = {"PaVeBa-real": "pv", "Auer-real": "au", "PaVeBa": "pv", "PaVeBaGP-IH": "pv", "PaVeBaGP-DE": "pv", "PaVeBaPartialGP-rect": "pv", "PaVeBaPartialGP-ell": "pv",
           "VOGP": "vg", "EpsilonPAL": "vg", "Auer": "au"}
-REGION = {"PaVeBa": "ell", "PaVeBaGP-IH": "rect", "PaVeBaGP-DE": "ell", "PaVeBaPartialGP-rect": "rect", "PaVeBaPartialGP-ell": "ell",
+REGION = {"PaVeBa-real": "ell", "Auer-real": "auer", "PaVeBa": "ell", "PaVeBaGP-IH": "rect", "PaVeBaGP-DE": "ell", "PaVeBaPartialGP-rect": "rect", "PaVeBaPartialGP-ell": "ell",
           "VOGP": "rect", "EpsilonPAL": "rect", "Auer": "auer"}
 
 
 def build(algo_name, X, Y, W, eps, sched, batch=1, costs=None, budget=None, delta=0.1, noise_var=0.01, contraction=1.0,
-          auer_empirical=False):
+          auer_empirical=False, obs_noise=None):
     """construct the real algorithm object around a stub posterior"""
     import vopy.algorithms.paveba_gp as m_pgp, vopy.algorithms.paveba_partial_gp as m_ppgp
     import vopy.algorithms.vogp as m_vogp, vopy.algorithms.epal as m_epal
     from vopy.algorithms import PaVeBa, PaVeBaGP, PaVeBaPartialGP, VOGP, EpsilonPAL, Auer
     name = make_ds(X, Y)
-    order = impl.order_from_W(W, with_alpha=True) if algo_name not in ("EpsilonPAL", "Auer") else None
+    order = impl.order_from_W(W, with_alpha=True) if algo_name not in ("EpsilonPAL", "Auer", "Auer-real") else None
     stub = Stub(X, sched, REGION[algo_name])
     fac = lambda *a, **k: stub
     saved = []
@@ -171,7 +186,7 @@ def build(algo_name, X, Y, W, eps, sched, batch=1, costs=None, budget=None, delt
         saved.append((mod, attr, getattr(mod, attr)))
         setattr(mod, attr, fac)
     try:
-        if algo_name == "PaVeBa":
+        if algo_name in ("PaVeBa", "PaVeBa-real"):
             a = PaVeBa(eps, delta, name, order, noise_var, conf_contraction=contraction)
         elif algo_name.startswith("PaVeBaGP"):
             a = PaVeBaGP(eps, delta, name, order, noise_var, conf_contraction=contraction, type=algo_name.split("-")[1], batch_size=batch)
@@ -183,16 +198,22 @@ def build(algo_name, X, Y, W, eps, sched, batch=1, costs=None, budget=None, delt
             a = VOGP(eps, delta, name, order, noise_var, conf_contraction=contraction, batch_size=batch)
         elif algo_name == "EpsilonPAL":
             a = EpsilonPAL(eps, delta, name, noise_var, conf_contraction=contraction, batch_size=batch)
-        elif algo_name == "Auer":
+        elif algo_name in ("Auer", "Auer-real"):
             a = Auer(eps, delta, name, noise_var, conf_contraction=contraction, use_empirical_beta=auer_empirical)
         else:
             raise ValueError(algo_name)
     finally:
         for mod, attr, old in saved:
             setattr(mod, attr, old)
-    a.model = stub
-    stub.algo = a
-    stub.track_variances = bool(auer_empirical)
+    if algo_name.endswith("-real"):
+        # real EmpiricalMeanVarModel, scripted observations
+        ref = [a]
+        a.problem = Scripted(X, Y, obs_noise or (lambda r, i: [0.0] * len(Y[0])), ref)
+        stub.algo = a
+    else:
+        a.model = stub
+        stub.algo = a
+        stub.track_variances = bool(auer_empirical)
     # dyadic slacks (inputs of the transitions; the constants themselves are C17's business)
     if hasattr(a, "cone_alpha_eps"):
         a.cone_alpha_eps = snap(a.cone_alpha_eps)
@@ -237,6 +258,8 @@ def run_algo(algo_name, X, Y, W, eps, sched, max_steps=12, extra_steps=1, **kw):
     done_seen = 0
     rec = {"algo": algo_name, "W": W, "eps": eps, "slack_dom": None, "slack_cov": None, "steps": steps, "K": len(X), "m": len(Y[0]),
            "exception": None, "kw": {k: v for k, v in kw.items() if k in ("batch", "costs", "budget")}}
+    if algo_name.endswith("-real"):
+        stub = type("Dummy", (), {"added": [], "updates": 0})()
     fam = FAMILY[algo_name]
     if fam == "pv":
         rec["slack_dom"] = 0.0; rec["slack_cov"] = np.array(a.cone_alpha_eps, dtype=float).tolist()
